@@ -264,6 +264,12 @@ func (d *decoder) decode(vs ...interface{}) error {
 				return err
 			}
 
+			// The count comes from the wire: never allocate more than the
+			// input can still provide.
+			if lr, ok := d.rd.(interface{ Len() int }); ok && int64(ll) > int64(lr.Len()) {
+				return io.ErrUnexpectedEOF
+			}
+
 			if ll > 0 {
 				*v = make([]byte, int(ll))
 			}
